@@ -21,7 +21,7 @@ TIME_CAP = {"quick": 60, "thorough": 900}
 RECURSION_LIMIT = 500
 STEP_BUDGET = 60_000
 CALL_DEPTH = 200  # frames allowed above the monitored call
-REQUIRED = ["programs", "cases", "class_validator_ran", "skipped:invalid-dep", "skipped:discarded-dep", "skipped:all-default", "outcome:ok",
+REQUIRED = ["aggregate_validator_cases", "programs", "cases", "class_validator_ran", "skipped:invalid-dep", "skipped:discarded-dep", "skipped:all-default", "outcome:ok",
             "outcome:verr", "ctor_checks", "mock_path_runs", "real_path_runs", "errors_compared", "order_checked", "values_compared",
             "cases_static_alias", "cases_dynamic_aliaser", "cases_initvar", "cases_inherited", "cases_field_validators", "cases_newtype",
             "cases_yield_style", "cases_field_decl", "cases_discard_decl", "cases_external_function", "cases_transitive_reads",
@@ -561,10 +561,100 @@ def newtype_workload(env):
                     env.violation({"kind": "errors", "target": "newtype-toplevel"}, {**wit, "expected": [[list(p), m] for p, m in exp.elements()]})
 
 
+AGGREGATE_SRC = """
+from dataclasses import dataclass, field
+from typing import Dict, Mapping
+from apischema import validator
+from apischema.metadata import flatten, properties
+LOG = []
+
+@dataclass
+class Inner:
+    x: int
+    y: int = 0
+
+@dataclass
+class Outer:
+    a: int
+    inner: Inner = field(metadata=flatten)
+    extra: Dict[str, int] = field(default_factory=dict, metadata=properties(pattern=r"^k_"))
+    rest: Mapping[str, int] = field(default_factory=dict, metadata=properties)
+
+    @validator
+    def reads_flattened(self):
+        LOG.append("reads_flattened")
+        if self.a > self.inner.x:
+            yield "a > x"
+
+    @validator
+    def reads_pattern(self):
+        LOG.append("reads_pattern")
+        if self.a in self.extra.values():
+            yield "a in extra"
+
+    @validator
+    def reads_additional(self):
+        LOG.append("reads_additional")
+        if len(self.rest) > self.a:
+            yield "too many"
+
+    @validator
+    def reads_plain(self):
+        LOG.append("reads_plain")
+        if self.a < 0:
+            yield "negative"
+"""
+
+
+def aggregate_workload(env):
+    """validators reading flattened / properties fields: a validator runs iff everything it reads is valid; never an exception"""
+    import sys
+    import types
+    from apischema import deserialize
+
+    import linecache
+    mod = types.ModuleType(f"vfc10agg_{env.shard}")
+    sys.modules[mod.__name__] = mod
+    fn = f"<{mod.__name__}>"
+    mod.__file__ = fn
+    linecache.cache[fn] = (len(AGGREGATE_SRC), None, AGGREGATE_SRC.splitlines(True), fn)  # the dependency analysis reads the validators' source
+    try:
+        exec(compile(AGGREGATE_SRC, fn, "exec"), mod.__dict__)
+        harness.reset_all()
+        # which aggregate is invalid -> validators that must not run
+        base = {"a": 1, "x": 2}
+        cases = [("all-valid", dict(base, k_1=5, other=7), set()),
+                 ("flattened-invalid", dict(base, x="bad"), {"reads_flattened"}), ("flattened-missing", {"a": 1}, {"reads_flattened"}),
+                 ("flattened-inner-default-invalid", dict(base, y="bad"), {"reads_flattened"}),
+                 ("pattern-invalid", dict(base, k_1="bad"), {"reads_pattern"}), ("additional-invalid", dict(base, other="bad"), {"reads_additional"}),
+                 ("plain-invalid", {"a": "bad", "x": 2}, {"reads_flattened", "reads_pattern", "reads_additional", "reads_plain"}),
+                 ("two-invalid", dict(base, x="bad", k_1="bad"), {"reads_flattened", "reads_pattern"})]
+        every = {"reads_flattened", "reads_pattern", "reads_additional", "reads_plain"}
+        for label, d, skipped in cases:
+            mod.LOG.clear()
+            r = harness.call(deserialize, mod.Outer, d)
+            env.count("aggregate_validator_cases")
+            env.case("aggregate", label)
+            wit = {"program": AGGREGATE_SRC, "datum": d, "case": label, "observed": r.brief(), "validators_run": list(mod.LOG)}
+            if r.kind == "exc":
+                env.violation({"kind": "exception", "exc": r.exc, "family": "aggregate-fields"}, wit)
+                continue
+            ran = set(mod.LOG)
+            if ran & skipped:
+                env.violation({"kind": "ran-although-not-runnable", "family": "aggregate-fields", "reason": "invalid-aggregate-dep"}, wit)
+            if (every - skipped) - ran:
+                env.violation({"kind": "not-run-although-runnable", "family": "aggregate-fields"}, wit)
+            if (r.kind == "ok") != (not skipped):
+                env.violation({"kind": "verdict", "family": "aggregate-fields"}, wit)
+    finally:
+        sys.modules.pop(mod.__name__, None)
+
+
 def run(env):
     harness.tag_errors(True)
     if env.shard == 0:
         newtype_workload(env)
+        aggregate_workload(env)
         # the REQUIRED counter is merged by sum, so counting in one shard is enough
     if env.quick():
         nprog = env.n(4400, 0)
